@@ -111,6 +111,15 @@ Definition svt_gap_ok (t : Q) (U : M) (s : list Q) (V rows : M) : bool :=
              (Qred ((1 # 10000000) * (t * lsum Qops (soft_thresholding Qops t s) + sumsq Qops (concat rows) / 2)))
   else true.
 
+(* the Boolean hypotheses of the per-case certificate Proofs/ProxProofsTapeCert.svt_case_certified (C12_svt_case_certified): shapes, s >= 0, t >= 0,
+   both Gram matrices within 1e-9 of the identity entrywise; when it holds, the matrix the executed model returns is optimal up to svt_gap *)
+Definition rectb (m n : nat) (A : M) : bool := Nat.eqb (length A) m && forallb (fun r : list Q => Nat.eqb (length r) n) A.
+Definition svt_case_ok (m n k : nat) (U : M) (s : list Q) (V rows : M) (t : Q) : bool :=
+  Nat.leb 1 m && Nat.leb 1 n && Nat.leb 1 k && Nat.ltb k 1000 && rectb m k U && Nat.eqb (length s) k && rectb k n V && rectb m n rows
+  && forallb (fun x => Qle_bool 0 x) s && Qle_bool 0 t
+  && rows_close (1 # 1000000000) 0 (gram_cols Qops U) (identity_mat Qops k)
+  && rows_close (1 # 1000000000) 0 (gram_rows Qops V) (identity_mat Qops k).
+
 (* exact certificates decided on the MODEL's output (so that the theorems of Proofs/ apply to it) *)
 Definition model_cert (atol rtol : Q) (o : op) (rows : M) : bool :=
   let out := run o rows in
@@ -122,6 +131,7 @@ Definition model_cert (atol rtol : Q) (o : op) (rows : M) : bool :=
   | OL2 t s => norm_ok s (concat rows)
   | ONormSparsity k s => norm_ok s (hard_thresholding Qops k (concat rows))
   | OSvt t U s V => svd_tape_ok atol rtol U s V rows && svt_gap_ok t U s V rows
+                    && (negb (Qle_bool 0 t) || svt_case_ok (length rows) (length (hd [] rows)) (length s) U s V rows t)
   | OProcrustes U s V => svd_tape_ok atol rtol U s V rows
   | _ => true
   end.
